@@ -63,7 +63,8 @@ def plan(tier, prop):
                 "/ not at all, bodies that raise at any depth; non-trivial = "
                 "at least one command call was judged; distinct = distinct "
                 "abstract event traces",
-        "expected_probes": ["explicit_positional", "explicit_keyword",
+        "expected_probes": ["exit_by_scp_error", "block_inside_except_handler", "led_iterable", "enum_member_argument",
+                            "explicit_positional", "explicit_keyword",
                             "from_context", "from_default", "missing_required",
                             "nested_depth_3", "exit_by_exception",
                             "application_block", "stop_signal_failed",
